@@ -30,7 +30,7 @@ def callbacks_check(case, script):
     s.AddListener(Rec())
     sol, out = H.run_script(s, script)
     if sol is not None:
-        fails.extend(O.best_check(p, s, sol if script[-1][0] == 'solve' else s.GetResults(), where='final Solution: '))
+        fails.extend(O.best_check(p, s, s.GetResults(), where='final Solution: '))
     return fails
 
 
@@ -46,6 +46,8 @@ def run(chk):
         if rng.random() < 0.3:     # local refinement, possibly repeated
             case['refine'] = rng.random() < 0.5
             script = script + [('refine', rng.choice([3, 10, 40]))] + ([('refine', rng.choice([2, 4]))] if rng.random() < 0.5 else [])
+            if rng.random() < 0.5:     # the search continues after a refinement
+                script = script + [('iter', rng.choice([1, 2, 5]))]
         fails = O.guarded(lambda c: callbacks_check(c, script), case)
         chk.evaluations += 1
         chk.nontrivial += 1
